@@ -134,6 +134,10 @@ def c01 (h : H) : List String :=
           | none => some "C01:result-before-handler-finished"
     | some (_, .app, _) => if o.meth = "fail" then none else some "C01:application-error-of-another-invocation"
     | _ => none) ++
+  -- a reply refused as "too big" whose content is, by the library's own message, not above the limit
+  (h.filterMap fun e => match e with
+    | .replyerr _ _ "toobig-but-fits" => some "C01:reply-refused-although-within-the-frame-limit"
+    | _ => none) ++
   -- replies: at most one per invocation; exactly one when nothing disturbed the session
   (ivs.filterMap fun (_, ep, hd, _, n, _) =>
     match os.find? (fun o => o.nonce = n) with
@@ -147,7 +151,7 @@ def c01 (h : H) : List String :=
         if replies.length > 1 then some "C01:more-than-one-reply"
         else
           let oversize := h.any fun e => match e with
-            | .replyerr ep' q "toobig" => ep' == ep && q == rf.seq
+            | .replyerr ep' q "toobig" => ep' == ep && q == rf.seq   -- really above the limit (sizes in the log message)
             | _ => false
           match handlerEnd h ep hd, endOf h o.c with
           | some (_, _, _, false), some (_, out, _) =>
